@@ -114,7 +114,7 @@ def prepare(verbose=True):
                 log.append("extraction failed:\n" + out)
                 model_ok = False
             else:
-                rc, out = sh(["ocamlfind", "ocamlopt", "-w", "-a", "model.mli", "model.ml", "driver.ml", "-o", mr + ".new"], cwd=ext_dir, timeout=900)
+                rc, out = sh(["ocamlfind", "ocamlopt", "-package", "unix", "-linkpkg", "-w", "-a", "model.mli", "model.ml", "driver.ml", "-o", mr + ".new"], cwd=ext_dir, timeout=900)
                 if rc != 0:
                     log.append("ocaml build failed:\n" + out)
                     model_ok = False
@@ -238,9 +238,23 @@ def print_assumptions(prop_file):
 
 # ---------------------------------------------------------------- running cases
 
+def _big_stack_only():
+    import resource
+    try:
+        resource.setrlimit(resource.RLIMIT_STACK, (resource.RLIM_INFINITY, resource.RLIM_INFINITY))
+    except (ValueError, OSError):
+        pass
+
+
 def _big_stack():
     # the extracted OCaml code is not tail-recursive (List.app, map, ...): long inputs need a deep stack
     import resource
+    try:
+        # memory cap per process: a hostile case must fail (Out_of_memory, reported as driver-error), not swap the machine
+        cap = int(os.environ.get("VERIF_PROC_MEM_GB", "4")) * (1 << 30)
+        resource.setrlimit(resource.RLIMIT_AS, (cap, cap))
+    except (ValueError, OSError):
+        pass
     try:
         resource.setrlimit(resource.RLIMIT_STACK, (resource.RLIM_INFINITY, resource.RLIM_INFINITY))
     except (ValueError, OSError):
@@ -251,36 +265,62 @@ def _big_stack():
             pass
 
 
-def _run_sharded(cmd, lines, shards=NPROC, timeout=3000):
+def _run_one_shard(cmd, chunk, timeout, model):
+    """run one process over `chunk`; a case that kills the process (fatal out-of-memory, crash, time limit) gets the
+    result `driver-error <what>` and the remaining cases are run by a new process"""
+    res = []
+    rest = list(chunk)
+    rounds = 0
+    while rest:
+        rounds += 1
+        p = subprocess.Popen(cmd, stdin=subprocess.PIPE, stdout=subprocess.PIPE, stderr=subprocess.PIPE, text=True, env=GOENV,
+                             preexec_fn=_big_stack if model else None)
+        try:
+            o, e = p.communicate("\n".join(rest) + "\n", timeout=timeout)
+            rc = p.returncode
+        except subprocess.TimeoutExpired:
+            p.kill()
+            o, e = p.communicate()
+            rc = "timeout"
+        rl = o.split("\n")
+        if rl and rl[-1] == "":
+            rl.pop()
+        if len(rl) >= len(rest):
+            res += rl[:len(rest)]
+            break
+        if rounds > 60:
+            raise RuntimeError("%s keeps dying (rc=%s): %s" % (cmd, rc, (e or "")[-1000:]))
+        # the case after the last complete line killed the process
+        res += rl
+        res.append("driver-error killed rc=%s %s" % (rc, " ".join((e or "").split())[-120:]))
+        rest = rest[len(rl) + 1:]
+    return res
+
+
+def _run_sharded(cmd, lines, shards=NPROC, timeout=3000, model=False):
     if not lines:
         return []
     shards = max(1, min(shards, (len(lines) + 199) // 200))
     chunks = [lines[i::shards] for i in range(shards)]
-    procs = []
-    for c in chunks:
-        p = subprocess.Popen(cmd, stdin=subprocess.PIPE, stdout=subprocess.PIPE, stderr=subprocess.PIPE, text=True, env=GOENV,
-                             preexec_fn=_big_stack)
-        procs.append(p)
     import threading
     outs = [None] * shards
+    errs = []
 
     def feed(i):
-        o, e = procs[i].communicate("\n".join(chunks[i]) + "\n", timeout=timeout)
-        outs[i] = (o, e, procs[i].returncode)
+        try:
+            outs[i] = _run_one_shard(cmd, chunks[i], timeout, model)
+        except Exception as ex:   # noqa
+            errs.append(ex)
     ths = [threading.Thread(target=feed, args=(i,)) for i in range(shards)]
     for t in ths:
         t.start()
     for t in ths:
         t.join()
+    if errs:
+        raise errs[0]
     res = [None] * len(lines)
     for i in range(shards):
-        o, e, rc = outs[i]
-        rl = o.split("\n")
-        if rl and rl[-1] == "":
-            rl.pop()
-        if len(rl) != len(chunks[i]):
-            raise RuntimeError("%s returned %d lines for %d cases (rc=%s): %s" % (cmd, len(rl), len(chunks[i]), rc, (e or "")[-2000:]))
-        for j, r in enumerate(rl):
+        for j, r in enumerate(outs[i]):
             res[i + j * shards] = r
     return res
 
@@ -302,7 +342,7 @@ def run_impl_env(lines, extra_env):
 
 
 def run_model(lines, mode="model", shards=NPROC):
-    return _run_sharded([os.path.join(BUILD, "modelrun"), mode], lines, shards)
+    return _run_sharded([os.path.join(BUILD, "modelrun"), mode], lines, shards, model=True)
 
 
 # ---------------------------------------------------------------- findings, replays, evidence
